@@ -417,7 +417,8 @@ class State:
 class SymX:
     """Symbolic execution of one function (methods: with `self` bound to a concrete class)."""
 
-    def __init__(self, ctx, func, cls_name=None, inline_depth=3, no_inline=(), inline_foreign=False):
+    def __init__(self, ctx, func, cls_name=None, inline_depth=3, no_inline=(), inline_foreign=False, unroll_literals=False):
+        self.unroll_literals = unroll_literals    # run `for x in (a, b, c):` element by element instead of summarising it
         self.inline_foreign = inline_foreign      # also inline x.m(...) on other objects when m resolves to exactly one method
         self.ctx = ctx
         self.prog = ctx.prog
@@ -560,6 +561,16 @@ class SymX:
     def try_stmt(self, s, st, f, depth):
         """try/except with one handler: an exception is assumed to arise at the first statement of the body that
         contains a (non-logging) call; the handler runs on the state reached before that statement."""
+        if not s.handlers and s.finalbody and not s.orelse:
+            # try/finally: the final block runs after the body on every path, also after a return
+            out = self.block(s.body, st, f, depth)
+            saved = (out.env.get("$returned", FALSE), out.env.get("$ret", C(None)), getattr(out, "dead", False))
+            out.env["$returned"] = FALSE
+            out.dead = False
+            out = self.block(s.finalbody, out, f, depth)
+            if out.env.get("$returned", FALSE) == FALSE:
+                out.env["$returned"], out.env["$ret"], out.dead = saved
+            return out
         if len(s.handlers) != 1 or s.orelse:
             raise Unsupported("try statement with %d handlers / else (%s)" % (len(s.handlers), f.where(s)))
         h = s.handlers[0]
@@ -714,8 +725,8 @@ class SymX:
         # a search over a short literal table that leaves by `return` (`for k, v in TABLE: if x == k: return v`) is
         # executed element by element; the loop summary cannot express an early return anyway
         src_t = loop.source
-        if src_t[0] in ("tup", "list") and 1 <= len(src_t[1]) <= 8 and loop.whole and not loop.enumerated \
-                and any(isinstance(n, ast.Return) for b in s.body for n in ast.walk(b)) \
+        if src_t[0] in ("tup", "list") and 1 <= len(src_t[1]) <= (16 if self.unroll_literals else 8) and loop.whole and not loop.enumerated \
+                and (self.unroll_literals or any(isinstance(n, ast.Return) for b in s.body for n in ast.walk(b))) \
                 and not any(isinstance(n, (ast.Break, ast.Continue, ast.For, ast.While)) for b in s.body for n in ast.walk(b)):
             del self.loops[loop.id]
             for el in src_t[1]:
@@ -937,6 +948,18 @@ class SymX:
                 return C(v)
             if ok and isinstance(v, (tuple, list)) and all(isinstance(x, (int, float, str, bool, type(None))) for x in v) and e.id not in f.mod.funcs:
                 return ("tup" if isinstance(v, tuple) else "list", tuple(C(x) for x in v))
+            if ok and isinstance(v, (tuple, list)) and e.id not in f.mod.funcs and not self._module_object_modified(f.mod, e.id):
+                def _lit(x, d=0):
+                    if isinstance(x, (int, float, str, bool, type(None))):
+                        return C(x)
+                    if isinstance(x, (tuple, list)) and d < 3 and len(x) <= 32:
+                        items = [_lit(y, d + 1) for y in x]
+                        if all(i is not None for i in items):
+                            return ("tup" if isinstance(x, tuple) else "list", tuple(items))
+                    return None
+                lit = _lit(v)
+                if lit is not None:
+                    return lit
             if not ok and e.id in f.mod.consts and isinstance(f.mod.consts[e.id], (ast.Tuple, ast.List)) and len(f.mod.consts[e.id].elts) <= 12 \
                     and not any(isinstance(n, (ast.Call, ast.Lambda, ast.ListComp, ast.GeneratorExp, ast.Starred)) for n in ast.walk(f.mod.consts[e.id])) \
                     and not self._module_object_modified(f.mod, e.id):
